@@ -191,6 +191,17 @@ Definition write_frames (w : nat) (frames : list (list (list N))) : list (list N
 
 Definition fifo (writes : list (list N)) : list N := concat writes.
 
+(* a stream cut after t bytes: how many leading frames are whole, and whether the
+   cut falls between two frames *)
+Fixpoint whole (t : nat) (frames : list (list (list N))) : nat * bool :=
+  match frames with
+  | [] => (0, true)
+  | fr :: fs =>
+      let l := length (concat fr) in
+      if l <=? t then let '(n, b) := whole (t - l) fs in (S n, b)
+      else (0, t =? 0)
+  end.
+
 (* ------------------------------------------------------------------ *)
 (* the two codecs                                                       *)
 
